@@ -242,6 +242,25 @@ def probes(uid, kek, kind):
                 initialization_vector=iv16))
             add('derive|%s|hash=%s' % (m.name, h.name if h else None),
                 (lambda m=m, params=params: W.p_derive_key([uid], m, params=params())))
+    # every derivation method x presence lattice of the derivation parameters
+    for m in DM:
+        for bits in range(32):
+            kw = {}
+            if bits & 1:
+                kw['cryptographic_parameters'] = cp(hashing_algorithm=HASH.SHA_256, cryptographic_algorithm=ALG.AES,
+                                                    block_cipher_mode=MODE.CBC, padding_method=PAD.PKCS5)
+            if bits & 2:
+                kw['derivation_data'] = b'data' * 4
+            if bits & 4:
+                kw['salt'] = b'salt'
+            if bits & 8:
+                kw['iteration_count'] = 3
+            if bits & 16:
+                kw['initialization_vector'] = iv16
+            if bits == 31:
+                continue        # the full form is above
+            add('derive|%s|present=%s' % (m.name, '+'.join(sorted(k[:4] for k in kw)) or 'none'),
+                (lambda m=m, kw=kw: W.p_derive_key([uid], m, params=W.cattrs.DerivationParameters(**kw))))
     for ln in (0, 8, 64, 128, 129, 256, 2 ** 20):
         add('derive|length=%d' % ln, (lambda ln=ln: W.p_derive_key([uid], attrs=W.sym_attrs(length=ln))))
     add('derive|no-derivation-data', lambda: W.p_derive_key([uid], params=W.cattrs.DerivationParameters(
@@ -361,6 +380,33 @@ def object_free_probes():
     add('query|dup', lambda: W.p_query([E.QueryFunction.QUERY_OPERATIONS] * 2))
     add('discover|all', lambda: W.p_discover())
     add('discover|some', lambda: W.p_discover([(1, 0), (9, 9), (2, 0)]))
+    # identifiers no object has, of every shape a text string allows (numbers SQLite cannot hold, other
+    # spellings of numbers, empty, long, non-ASCII): every addressing operation answers without an
+    # internal error
+    odd = [('empty', ''), ('2^63', str(2 ** 63)), ('-2^63-1', str(-2 ** 63 - 1)), ('2^64', str(2 ** 64)),
+           ('39-digits', '3' * 39), ('100-digits', '7' * 100), ('5000-digits', '1' * 5000),
+           ('long-text', 'x' * 3000), ('decimal', '999.0'), ('exponent', '1e400'), ('space', ' 999 '),
+           ('plus', '+999'), ('hex', '0x3e7'), ('nul', 'a\x00b'), ('non-ascii', 'cl\u00e9-\u0663'),
+           ('quote', "1' OR '1'='1"), ('percent', '%'), ('nan', 'nan'), ('inf', '-inf')]
+    for oname, oid in odd:
+        for opn, mk in (
+                ('get', lambda u: W.p_get(u)), ('get_attributes', lambda u: W.p_get_attributes(u)),
+                ('get_attribute_list', lambda u: W.p_get_attribute_list(u)),
+                ('activate', lambda u: W.p_activate(u)), ('revoke', lambda u: W.p_revoke(u)),
+                ('destroy', lambda u: W.p_destroy(u)), ('encrypt', lambda u: W.p_encrypt(u)),
+                ('decrypt', lambda u: W.p_decrypt(u)), ('mac', lambda u: W.p_mac(u)),
+                ('sign', lambda u: W.p_sign(u)), ('signature_verify', lambda u: W.p_signature_verify(u)),
+                ('derive_key', lambda u: W.p_derive_key([u])),
+                ('derive_key2', lambda u: W.p_derive_key(['1', u])),
+                ('get_wrapped', lambda u: W.p_get('1', wrapping_spec=W.wrapping_spec(u))),
+                ('modify_1x', lambda u: W.p_modify_attribute_1x(u, AT.NAME, 'x', 0)),
+                ('delete_1x', lambda u: W.p_delete_attribute_1x(u, 'Name', 0))):
+            add('%s|odd-id=%s' % (opn, oname), (lambda mk=mk, oid=oid: mk(oid)))
+        for opn, mk in (
+                ('set_20', lambda u: W.p_set_attribute(u, AT.SENSITIVE, True)),
+                ('modify_20', lambda u: W.p_modify_attribute_20(u, AT.NAME, 'x', 'n')),
+                ('delete_20', lambda u: W.p_delete_attribute_20(u, AT.NAME))):
+            add('%s|odd-id=%s' % (opn, oname), (lambda mk=mk, oid=oid: mk(oid)), '20')
     # operations the server does not implement (payload classes the library can encode)
     for opn, cls in (('REKEY', 'RekeyRequestPayload'), ('REKEY_KEY_PAIR', 'RekeyKeyPairRequestPayload'),
                      ('CHECK', 'CheckRequestPayload'), ('GET_USAGE_ALLOCATION', 'GetUsageAllocationRequestPayload'),
